@@ -44,6 +44,67 @@ def plan (P : Pipeline Settings Request Result Slots SlotOut) (settings : Settin
   let (s, outs) := assignAll P s0 (reqs.zip results)
   { settings := settings, results := results, slotOuts := outs, slots := s }
 
+/-! ## process-wide simulation parameters (`SimParams._shared_dict`) -/
+
+/-- `NLIParams` as far as the channel selection of the GGN methods reads it -/
+structure NliParams where
+  method : String
+  computedChannels : Option (List Nat)           -- 1-based channel numbers
+  computedNumberOfChannels : Option Nat
+deriving DecidableEq, Repr
+
+/-- `RamanParams.flag` (+ the method name) -/
+structure RamanParams where
+  flag : Bool
+  method : String
+deriving DecidableEq, Repr
+
+structure SimSettings where
+  nli : NliParams
+  raman : RamanParams
+deriving DecidableEq, Repr
+
+/-- what `planning` computes with: the designed network AND the process-wide simulation parameters -/
+structure World (Net : Type) where
+  network : Net
+  sim : SimSettings
+
+/-- Python `round(num / den)` for non-negative integers: nearest, ties to even -/
+def roundDiv (num den : Nat) : Nat :=
+  let q := num / den
+  let r := num % den
+  if 2 * r < den then q else if den < 2 * r then q + 1 else if q % 2 = 0 then q else q + 1
+
+/-- the channels on which a GGN method evaluates the NLI explicitly (`NliSolver.compute_nli`): the listed
+`computed_channels` minus one; else `round(i·(n−1)/(c−1))` for `i < c = computed_number_of_channels` (duplicates when the
+comb has fewer carriers than `c`; `c = 1` divides by zero); else every channel.  READS the parameters only. -/
+def cutIndices (p : NliParams) (nbCh : Nat) : Except String (List Nat) :=
+  match p.computedChannels with
+  | some l => .ok (l.map (· - 1))
+  | none =>
+    match p.computedNumberOfChannels with
+    | some c => if c = 1 then .error "ZeroDivisionError"
+                else .ok ((List.range c).map (fun i => roundDiv (i * (nbCh - 1)) (c - 1)))
+    | none => .ok (List.range nbCh)
+
+/-- the defect the SimParams monitor guards against (seeded change `nli_computed_channels_clamp`): a selection that
+WRITES the clamped `computed_number_of_channels` back into the shared parameters -/
+def cutIndicesClamping (p : NliParams) (nbCh : Nat) : NliParams × Except String (List Nat) :=
+  match p.computedChannels, p.computedNumberOfChannels with
+  | none, some c =>
+    let p' := if c > nbCh then { p with computedNumberOfChannels := some nbCh } else p
+    (p', cutIndices p' nbCh)
+  | _, _ => (p, cutIndices p nbCh)
+
+/-- a batch of combs (number of carriers each) evaluated one after the other with a selection that threads the
+parameters (the defect) -/
+def selectAllClamping (p : NliParams) : List Nat → NliParams × List (Except String (List Nat))
+  | [] => (p, [])
+  | n :: ns =>
+    let (p1, r) := cutIndicesClamping p n
+    let (p2, rs) := selectAllClamping p1 ns
+    (p2, r :: rs)
+
 /-! ## the amplifier machine -/
 section machine
 variable {α : Type} [Add α] [Sub α] [LE α] [DecidableLE α]
